@@ -4,8 +4,7 @@ register_modules("C04", "contracts.C04_hsms", "bounded.C04_api")
 LEVEL = "proof"
 ASSUMPTIONS = [
     "A-STRUCT / A-INT / A-SEQ",
-    "A-EXT: threading.Condition.wait_for(pred) returns only when pred() holds; while waiting other threads may only append to the buffer (rely)",
-    "A-BQ-ABS (assumed contracts BQWaitForAbs, BQLenAbs): ByteQueue seen through the ghost stream of all bytes ever appended and a read cursor; justified by BQAppend/BQPop/BQWaitFor verified on the real methods",
+    "A-BQ-ABS (assumed call-site contracts BQWaitForBufferedAbs, BQLenAbs): ByteQueue seen through the ghost stream of all bytes ever appended and a read cursor; other threads only append; justified by BQAppend/BQPop/BQWaitForBuffered verified on the real methods. The framing loop calls wait_for only with its bytes buffered (call-site obligation), so the blocking path of wait_for is not relied on here (it is under contract for C17)",
     "QueueBlockAbs: the dispatcher call-out is specified by its precondition (k-th call receives the decode of the k-th frame); the FIFO hand-off inside ProtocolDispatcher (queue.Queue, A-QUEUE) and thread scheduling (A-SCHED) are not verified",
     "valid frames only (assigned SType, length field >= 10): frames that fail to decode raise out of the framing loop and are outside this property",
 ]
